@@ -44,18 +44,31 @@ def caseTable : List (Char × Char × Char) :=
     ('\u00c5', '\u00c5', '\u00e5'),     -- Å
     ('\u00e9', '\u00c9', '\u00e9'),     -- é
     ('\u00c9', '\u00c9', '\u00e9'),     -- É
+    ('\u1e9e', '\u1e9e', '\u00df'),     -- LATIN CAPITAL LETTER SHARP S (folds to ß under re.IGNORECASE)
     ('\u2126', '\u2126', '\u03c9'),     -- OHM SIGN
     ('\u03c9', '\u03a9', '\u03c9'),     -- ω
     ('\u03a9', '\u03a9', '\u03c9') ]    -- Ω
 
-/-- `str.upper()` per character: ASCII letters, the letters of `caseTable`; every other character is
-left alone (CPython's case mapping for the rest of Unicode is outside the model) -/
+/-- `str.upper()` per character where it is one character long: ASCII letters, the letters of
+`caseTable`; every other character is left alone (CPython's case mapping for the rest of Unicode is
+outside the model) -/
 def upperChar (c : Char) : Char :=
   if 'a' ≤ c ∧ c ≤ 'z' then Char.ofNat (c.toNat - 32)
   else match caseTable.lookup c with
     | some (u, _) => u
     | none => c
-def upper (s : String) : String := String.ofList (s.toList.map upperChar)
+
+/-- the two letters of the alphabet whose upper case is *two* characters long: `ß` ↦ `SS`,
+`ﬁ` (U+FB01) ↦ `FI`.  (`ẞ`, U+1E9E, is its own upper case and is in `caseTable`.) -/
+def multiUpper : List (Char × List Char) := [('\u00df', ['S', 'S']), ('\ufb01', ['F', 'I'])]
+
+/-- `str.upper()` of one character -/
+def upperStr (c : Char) : List Char :=
+  match multiUpper.lookup c with
+  | some u => u
+  | none => [upperChar c]
+
+def upper (s : String) : String := String.ofList (s.toList.flatMap upperStr)
 
 /-- representative of a character's class under `re.IGNORECASE` (same alphabet) -/
 def reKey (c : Char) : Char :=
